@@ -1,29 +1,1753 @@
-//! C02, C17, C15: line numbers, layout invariance, independence
-use crate::report::CheckResult;
+//! C02, C17, C15: line numbers, layout invariance, independence (bounded executable contracts).
+//!
+//! C02  (a) `utils::get_line_number(off, s) == 1 + |{ i < off : s[i] == '\n' }|` for every admissible (s, off);
+//!      (b) `analyze_for_*(src, _, p) == { 1 + #'\n' before loc.start : loc in detector_p(parse(src)) }`.
+//! C17  the tokens that start flagged constructs are the same on every token-preserving re-layout of a
+//!      file, the reported lines are exactly the lines of those tokens, and text inside comments or string
+//!      literals never produces a finding of its own.
+//! C15  the lines reported for (file content, pattern) do not depend on call history, repetition,
+//!      `file_number`, a fresh process, or concurrent callers.
+//!
+//! The tokenizer is solang's own lexer (`solang_parser::lexer::Lexer`, the one `parse` uses), so "token" means
+//! exactly what the code under test sees; every re-layout is re-lexed and must give the same token sequence
+//! (harness self-check) before it is used.
+use crate::gen::{self, Prog};
+use crate::json::J;
+use crate::report::{CheckResult, Rng};
+use solang_parser::lexer::Lexer;
+use solang_parser::pt::{Loc, SourceUnit};
+use solstat::analyzer::optimizations as opt;
+use solstat::analyzer::qa;
+use solstat::analyzer::utils;
+use solstat::analyzer::vulnerabilities as vul;
+use std::collections::{BTreeSet, HashSet};
+use std::panic::{catch_unwind, AssertUnwindSafe};
+use std::sync::atomic::{AtomicUsize, Ordering};
+use std::sync::{Barrier, Mutex, Once};
 
-/// Returns Some(exit code) when `cmd` belongs to this module.
-pub fn dispatch(cmd: &str, rest: &[String], tier: &str, seed: u64) -> Option<i32> {
-    let _ = (rest, tier, seed);
-    match cmd {
-        "c02" => {
-            println!("{}", todo("c02").to_json().render());
-            Some(0)
-        }
-        "c17" => {
-            println!("{}", todo("c17").to_json().render());
-            Some(0)
-        }
-        "c15" => {
-            println!("{}", todo("c15").to_json().render());
-            Some(0)
-        }
-        _ => None,
+// ------------------------------------------------------------------------------------------------
+// the 30 detectors
+// ------------------------------------------------------------------------------------------------
+
+#[derive(Clone, Copy)]
+enum Pat {
+    O(opt::Optimization),
+    V(vul::Vulnerability),
+    Q(qa::QualityAssurance),
+}
+
+#[derive(Clone, Copy)]
+struct Det {
+    name: &'static str,
+    pat: Pat,
+    f: fn(SourceUnit) -> HashSet<Loc>,
+}
+
+fn detectors() -> Vec<Det> {
+    fn o(name: &'static str, f: fn(SourceUnit) -> HashSet<Loc>) -> Det {
+        Det { name, pat: Pat::O(opt::str_to_optimization(name)), f }
+    }
+    fn v(name: &'static str, f: fn(SourceUnit) -> HashSet<Loc>) -> Det {
+        Det { name, pat: Pat::V(vul::str_to_vulnerability(name)), f }
+    }
+    fn q(name: &'static str, f: fn(SourceUnit) -> HashSet<Loc>) -> Det {
+        Det { name, pat: Pat::Q(qa::str_to_qa(name)), f }
+    }
+    vec![
+        o("address_balance", opt::address_balance::address_balance_optimization),
+        o("address_zero", opt::address_zero::address_zero_optimization),
+        o("assign_update_array_value", opt::assign_update_array_value::assign_update_array_optimization),
+        o("bool_equals_bool", opt::bool_equals_bool::bool_equals_bool_optimization),
+        o("cache_array_length", opt::cache_array_length::cache_array_length_optimization),
+        o("constant_variables", opt::constant_variables::constant_variable_optimization),
+        o("immutable_variables", opt::immutable_variables::immutable_variables_optimization),
+        o("increment_decrement", opt::increment_decrement::increment_decrement_optimization),
+        o("memory_to_calldata", opt::memory_to_calldata::memory_to_calldata_optimization),
+        o("multiple_require", opt::multiple_require::multiple_require_optimization),
+        o("optimal_comparison", opt::optimal_comparison::optimal_comparison_optimization),
+        o("pack_storage_variables", opt::pack_storage_variables::pack_storage_variables_optimization),
+        o("pack_struct_variables", opt::pack_struct_variables::pack_struct_variables_optimization),
+        o("payable_function", opt::payable_function::payable_function_optimization),
+        o("private_constant", opt::private_constant::private_constant_optimization),
+        o("safe_math_pre_080", opt::safe_math::safe_math_pre_080_optimization),
+        o("safe_math_post_080", opt::safe_math::safe_math_post_080_optimization),
+        o("shift_math", opt::shift_math::shift_math_optimization),
+        o("short_revert_string", opt::short_revert_string::short_revert_string_optimization),
+        o("solidity_keccak256", opt::solidity_keccak256::solidity_keccak256_optimization),
+        o("solidity_math", opt::solidity_math::solidity_math_optimization),
+        o("sstore", opt::sstore::sstore_optimization),
+        o("string_errors", opt::string_errors::string_error_optimization),
+        v("divide_before_multiply", vul::divide_before_multiply::divide_before_multiply_vulnerability),
+        v("floating_pragma", vul::floating_pragma::floating_pragma_vulnerability),
+        v("unprotected_selfdestruct", vul::unprotected_selfdestruct::unprotected_selfdestruct_vulnerability),
+        v("unsafe_erc20_operation", vul::unsafe_erc20_operation::unsafe_erc20_operation_vulnerability),
+        q("constructor_order", qa::constructor_order::constructor_order_qa),
+        q("private_func_leading_underscore", qa::private_func_leading_underscore::private_func_leading_underscore),
+        q("private_vars_leading_underscore", qa::private_vars_leading_underscore::private_vars_leading_underscore),
+    ]
+}
+
+fn det_by_name(dets: &[Det], name: &str) -> Option<usize> {
+    dets.iter().position(|d| d.name == name)
+}
+
+static SILENCE: Once = Once::new();
+/// panics of the code under test are caught and handled; keep them off stderr
+fn silence() {
+    SILENCE.call_once(|| std::panic::set_hook(Box::new(|_| {})));
+}
+
+fn panic_msg(e: Box<dyn std::any::Any + Send>) -> String {
+    if let Some(s) = e.downcast_ref::<&str>() {
+        s.to_string()
+    } else if let Some(s) = e.downcast_ref::<String>() {
+        s.clone()
+    } else {
+        "panic".to_string()
     }
 }
 
-#[allow(dead_code)]
-fn todo(name: &str) -> CheckResult {
-    let mut r = CheckResult::new(name);
-    r.violate("harness:not-implemented", "check not implemented yet", vec![name.to_string()], String::new(), String::new());
+type Lines = Result<BTreeSet<i32>, String>;
+
+/// the real per-file entry point for one pattern
+fn analyze(d: &Det, src: &str, file_no: usize) -> Lines {
+    let pat = d.pat;
+    catch_unwind(AssertUnwindSafe(|| match pat {
+        Pat::O(o) => opt::analyze_for_optimization(src, file_no, o),
+        Pat::V(v) => vul::analyze_for_vulnerability(src, file_no, v),
+        Pat::Q(q) => qa::analyze_for_qa(src, file_no, q),
+    }))
+    .map_err(panic_msg)
+}
+
+/// the detector function called directly on a parse tree
+fn locations(d: &Det, su: SourceUnit) -> Result<HashSet<Loc>, String> {
+    let f = d.f;
+    catch_unwind(AssertUnwindSafe(|| f(su))).map_err(panic_msg)
+}
+
+fn fmt_lines(l: &Lines) -> String {
+    match l {
+        Ok(s) => format!("{:?}", s),
+        Err(m) => format!("PANIC({})", m),
+    }
+}
+
+/// the specification of a line number: one plus the number of line feeds strictly before `off`
+fn spec_line(off: usize, s: &str) -> i32 {
+    1 + s.as_bytes()[..off.min(s.len())].iter().filter(|b| **b == b'\n').count() as i32
+}
+
+// ------------------------------------------------------------------------------------------------
+// small parallel map (deterministic result order)
+// ------------------------------------------------------------------------------------------------
+
+fn workers() -> usize {
+    std::thread::available_parallelism().map(|n| n.get()).unwrap_or(4).clamp(1, 8)
+}
+
+fn par_map<T: Sync, R: Send, F: Fn(usize, &T) -> R + Sync>(items: &[T], f: F) -> Vec<R> {
+    let n = items.len();
+    let next = AtomicUsize::new(0);
+    let results: Mutex<Vec<(usize, R)>> = Mutex::new(Vec::with_capacity(n));
+    std::thread::scope(|s| {
+        for _ in 0..workers().min(n.max(1)) {
+            let _ = std::thread::Builder::new().stack_size(32 << 20).spawn_scoped(s, || loop {
+                let i = next.fetch_add(1, Ordering::Relaxed);
+                if i >= n {
+                    break;
+                }
+                let r = f(i, &items[i]);
+                results.lock().unwrap().push((i, r));
+            });
+        }
+    });
+    let mut v = results.into_inner().unwrap();
+    v.sort_by_key(|(i, _)| *i);
+    v.into_iter().map(|(_, r)| r).collect()
+}
+
+struct Viol {
+    key: String,
+    what: String,
+    replay: Vec<String>,
+    expected: String,
+    actual: String,
+}
+
+#[derive(Default)]
+struct Part {
+    evals: u64,
+    nontrivial: Vec<String>,
+    viols: Vec<Viol>,
+    skipped_panics: u64,
+    parse_fail: Vec<String>,
+    rejected: u64,
+    samples: Vec<J>,
+}
+
+impl Part {
+    fn violate(&mut self, key: String, what: String, replay: Vec<String>, expected: String, actual: String) {
+        if self.viols.iter().any(|v| v.key == key) {
+            return;
+        }
+        self.viols.push(Viol { key, what, replay, expected, actual });
+    }
+}
+
+struct Totals {
+    skipped_panics: u64,
+    parse_fail: Vec<String>,
+    rejected: u64,
+}
+
+fn merge(r: &mut CheckResult, parts: Vec<Part>, t: &mut Totals) {
+    for p in parts {
+        r.evaluations += p.evals;
+        for n in p.nontrivial {
+            r.nontrivial.insert(n);
+        }
+        for v in p.viols {
+            r.violate(&v.key, &v.what, v.replay, v.expected, v.actual);
+        }
+        for s in p.samples {
+            r.sample(s);
+        }
+        t.skipped_panics += p.skipped_panics;
+        t.parse_fail.extend(p.parse_fail);
+        t.rejected += p.rejected;
+    }
+}
+
+// ------------------------------------------------------------------------------------------------
+// corpus
+// ------------------------------------------------------------------------------------------------
+
+const EXPR_PAYLOADS: &[(&str, &str)] = &[
+    ("ge", "x >= y"),
+    ("transfer", "token.transfer(a0[0], 1)"),
+    ("balance", "address(this).balance"),
+    ("arrupd", "a0[0] = a0[0] + 1"),
+    ("mul2", "x * 2"),
+    ("keccak", "keccak256(abi.encode(x))"),
+    ("booleq", "x == true"),
+    ("sstore", "s0 = x"),
+    ("preinc", "++x"),
+    ("postinc", "x++"),
+    ("require", "require(x > 0 && y > 0, \"short\")"),
+    ("divmul", "(x / y) * 3"),
+];
+
+const STMT_PAYLOADS: &[(&str, &str)] = &[("selfdestruct", "selfdestruct(payable(address(0)));")];
+
+/// string literals full of code-like text (C17: text inside strings never produces a finding)
+const STRING_EXPR_PAYLOADS: &[(&str, &str)] = &[
+    ("str-keccak", "keccak256(\"x >= y; ++x; token.transfer(a0[0], 1); a0[0] = a0[0] + 1; x * 2\")"),
+    ("str-cmp", "keccak256(bytes('selfdestruct(msg.sender); x == true; i++')) == keccak256(bytes(\"address(this).balance\"))"),
+];
+const STRING_STMT_PAYLOADS: &[(&str, &str)] = &[
+    ("str-require", "require(x > 0, \"selfdestruct(msg.sender); x == true; address(this).balance >= 1\");"),
+    ("str-revert", "if (x == 99) { revert(\"x++ ; y <= x ; (x / y) * 3\"); }"),
+    ("str-local", "string memory sx = \"s0 = x; require(x > 0 && y > 0); pragma solidity ^0.4.0;\"; sx;"),
+];
+
+/// positions that are always kept when the placements of a payload are sub-sampled
+const KEEP_POS: &[&str] = &["@stmt-expr", "@file:file-constant", "@member:state-init", "@for-cond", "@file:library-fn"];
+
+fn corpus(per_payload: usize, with_strings: bool, rng: &mut Rng) -> Vec<Prog> {
+    let mut v: Vec<Prog> = vec![];
+    let sample = |all: Vec<Prog>, rng: &mut Rng, v: &mut Vec<Prog>| {
+        if per_payload == 0 || all.len() <= per_payload {
+            v.extend(all);
+            return;
+        }
+        let mut keep: Vec<Prog> = vec![];
+        let mut rest: Vec<Prog> = vec![];
+        for p in all {
+            if KEEP_POS.iter().any(|k| p.tag.ends_with(k)) {
+                keep.push(p);
+            } else {
+                rest.push(p);
+            }
+        }
+        rng.shuffle(&mut rest);
+        let room = per_payload.saturating_sub(keep.len());
+        rest.truncate(room);
+        v.extend(keep);
+        v.extend(rest);
+    };
+    for (n, e) in EXPR_PAYLOADS {
+        sample(gen::place_expr_everywhere(n, e), rng, &mut v);
+    }
+    for (n, s) in STMT_PAYLOADS {
+        v.extend(gen::place_stmt_everywhere(n, s));
+    }
+    if with_strings {
+        for (n, e) in STRING_EXPR_PAYLOADS {
+            sample(gen::place_expr_everywhere(n, e), rng, &mut v);
+        }
+        for (n, s) in STRING_STMT_PAYLOADS {
+            v.extend(gen::place_stmt_everywhere(n, s));
+        }
+    }
+    v.extend(gen::sink());
+    // small programs first: the first witness kept per violation key is a small one
+    v.sort_by(|a, b| (a.src.len(), &a.tag).cmp(&(b.src.len(), &b.tag)));
+    v
+}
+
+// ------------------------------------------------------------------------------------------------
+// tokens and layouts
+// ------------------------------------------------------------------------------------------------
+
+fn lex_spans(src: &str) -> Option<Vec<(usize, usize)>> {
+    let mut comments = Vec::new();
+    let mut out = vec![];
+    let lx = Lexer::new(src, 0, &mut comments);
+    for t in lx {
+        match t {
+            Ok((s, _, e)) => out.push((s, e)),
+            Err(_) => return None,
+        }
+    }
+    Some(out)
+}
+
+/// true iff `g` consists of white space and well-formed comments only (independent re-check of the lexer's spans)
+fn gap_is_trivia(g: &str) -> bool {
+    let b = g.as_bytes();
+    let mut i = 0;
+    while i < b.len() {
+        if g[i..].starts_with("//") {
+            while i < b.len() && b[i] != b'\n' && b[i] != b'\r' {
+                i += 1;
+            }
+        } else if g[i..].starts_with("/*") {
+            match g[i + 2..].find("*/") {
+                Some(k) => i = i + 2 + k + 2,
+                None => return false,
+            }
+        } else {
+            let ch = g[i..].chars().next().unwrap();
+            if !ch.is_whitespace() {
+                return false;
+            }
+            i += ch.len_utf8();
+        }
+    }
+    true
+}
+
+#[derive(Clone)]
+struct Toks {
+    texts: Vec<String>,
+    /// gap i (before token i; gap n = after the last token) may hold white space only:
+    /// solang's lexer takes everything between `pragma <ident>` and `;` as ONE value token, comments included
+    ws_only: Vec<bool>,
+    orig_gaps: Vec<String>,
+}
+
+fn tokenize(src: &str) -> Option<Toks> {
+    let spans = lex_spans(src)?;
+    let mut texts = vec![];
+    let mut gaps = vec![];
+    let mut pos = 0;
+    for (s, e) in &spans {
+        if *s < pos || *e <= *s || *e > src.len() || !src.is_char_boundary(*s) || !src.is_char_boundary(*e) {
+            return None;
+        }
+        let g = &src[pos..*s];
+        if !gap_is_trivia(g) {
+            return None;
+        }
+        gaps.push(g.to_string());
+        texts.push(src[*s..*e].to_string());
+        pos = *e;
+    }
+    if !gap_is_trivia(&src[pos..]) {
+        return None;
+    }
+    gaps.push(src[pos..].to_string());
+    let n = texts.len();
+    let mut ws_only = vec![false; n + 1];
+    for i in 2..n {
+        if texts[i - 2] == "pragma" && texts[i] != ";" {
+            ws_only[i] = true;
+            ws_only[i + 1] = true;
+        }
+    }
+    // a comment already sitting in such a gap would have been swallowed by the value token; fine.
+    Some(Toks { texts, ws_only, orig_gaps: gaps })
+}
+
+struct Layout {
+    kind: String,
+    text: String,
+    starts: Vec<usize>,
+    /// 1-based line of the first byte of each token (by the specification: 1 + line feeds before it)
+    lines: Vec<i32>,
+}
+
+fn assemble(kind: &str, t: &Toks, gaps: &[String]) -> Layout {
+    let mut text = String::new();
+    let mut starts = vec![];
+    let mut lines = vec![];
+    let mut line = 1;
+    for (i, tok) in t.texts.iter().enumerate() {
+        text.push_str(&gaps[i]);
+        line += gaps[i].bytes().filter(|b| *b == b'\n').count() as i32;
+        starts.push(text.len());
+        lines.push(line);
+        text.push_str(tok);
+        line += tok.bytes().filter(|b| *b == b'\n').count() as i32;
+    }
+    text.push_str(&gaps[t.texts.len()]);
+    Layout { kind: kind.to_string(), text, starts, lines }
+}
+
+fn gaps_const(t: &Toks, lead: &str, mid: &str, trail: &str) -> Vec<String> {
+    let n = t.texts.len();
+    let mut g = vec![mid.to_string(); n + 1];
+    g[0] = lead.to_string();
+    g[n] = trail.to_string();
+    g
+}
+
+const WS_POOL: &[&str] = &[" ", "  ", "\t", "\n", "\n\n", " \n  ", "\r\n", "\n\t\t", "\r\n\r\n", " \r ", "\n \n \n"];
+const EDGE_POOL: &[&str] = &["", "\n", "  ", "\n\n", "\r\n", " "];
+
+fn gaps_random_ws(t: &Toks, rng: &mut Rng) -> Vec<String> {
+    let n = t.texts.len();
+    let mut g: Vec<String> = (0..=n).map(|_| rng.pick(WS_POOL).to_string()).collect();
+    g[0] = rng.pick(EDGE_POOL).to_string();
+    g[n] = rng.pick(EDGE_POOL).to_string();
+    g
+}
+
+const CODE_COMMENTS: &[&str] = &[
+    "/* x >= y; token.transfer(a,b); */",
+    "// selfdestruct(msg.sender);",
+    "/* a[0] = a[0] + 1; x * 2; ++i; i++ */",
+    "// require(a > 0 && b > 0, \"msg\"); x == true",
+    "/* address(this).balance; keccak256(abi.encode(x));\n   function f() public {} uint constant K = 1;\n   x <= y */",
+    "/// x <= y in a doc comment",
+    "/** (x / y) * 3; pragma solidity ^0.8.0; */",
+    "// using SafeMath for uint; a.add(b); contract Z { constructor() {} }",
+    "/* \"unterminated string; x >= y */",
+    "// /* block opener inside a line comment; ++x",
+    "/* // line opener inside a block comment; x-- */",
+    "/**/",
+];
+
+const MB_COMMENTS: &[&str] = &[
+    "/* \u{e9}\u{6f22}\u{5b57}\u{1F600} x++ */",
+    "// \u{fc}n\u{ef} ++i \u{2014} \u{f1} x >= y",
+    "/* \u{2200}x\u{2265}y\n \u{65e5}\u{672c}\u{8a9e} token.transfer(a,b) */",
+    "/** \u{434}\u{43e}\u{43a} x >= y */",
+];
+
+fn gaps_comments(t: &Toks, rng: &mut Rng, pool: &[&str], density: usize) -> Vec<String> {
+    let n = t.texts.len();
+    let mut g = vec![];
+    for i in 0..=n {
+        let ws = if i == 0 { "" } else { *rng.pick(&[" ", "\n", "  ", "\n    ", "\r\n"]) };
+        if t.ws_only[i] || rng.below(density) != 0 {
+            g.push(if ws.is_empty() && i != 0 && i != n { " ".to_string() } else { ws.to_string() });
+            continue;
+        }
+        let c = *rng.pick(pool);
+        let mut s = String::new();
+        s.push_str(ws);
+        s.push_str(c);
+        if c.starts_with("//") {
+            s.push_str(if rng.below(4) == 0 { "\r\n" } else { "\n" });
+        } else {
+            s.push_str(*rng.pick(&[" ", "\n", ""]));
+        }
+        g.push(s);
+    }
+    if !g[n].ends_with('\n') {
+        g[n].push('\n');
+    }
+    g
+}
+
+fn mb_header() -> String {
+    format!("/* {} */\n", "\u{6f22}\u{e9}\u{1F600}".repeat(24))
+}
+
+/// the reference layout: token i alone on line i + 1
+fn base_layout(t: &Toks) -> Layout {
+    assemble("one-token-per-line", t, &gaps_const(t, "", "\n", "\n"))
+}
+
+fn crlf_gaps(gaps: &[String]) -> Vec<String> {
+    gaps.iter().map(|g| g.replace("\r\n", "\n").replace('\n', "\r\n")).collect()
+}
+
+/// token-preserving re-layouts (C17); `rounds` seeded instances of each random kind
+fn relayouts(t: &Toks, rng: &mut Rng, rounds: usize) -> Vec<Layout> {
+    let n = t.texts.len();
+    let mut v = vec![];
+    v.push(assemble("original", t, &t.orig_gaps));
+    v.push(assemble("original-crlf", t, &crlf_gaps(&t.orig_gaps)));
+    v.push(assemble("single-line", t, &gaps_const(t, "", " ", "\n")));
+    v.push(assemble("single-line-no-eol", t, &gaps_const(t, "", " ", "")));
+    v.push(assemble("crlf-token-per-line", t, &gaps_const(t, "", "\r\n", "\r\n")));
+    v.push(assemble("blank-lines", t, &gaps_const(t, "\n\n", "\n\n\n", "\n\n")));
+    v.push(assemble("multibyte-header+token-per-line", t, &gaps_const(t, &mb_header(), "\n", "\n")));
+    let mut two = gaps_const(t, "", "\n", "\n");
+    for i in 1..n {
+        if i % 2 == 1 {
+            two[i] = " ".to_string();
+        }
+    }
+    v.push(assemble("two-tokens-per-line", t, &two));
+    for _ in 0..rounds {
+        v.push(assemble("random-whitespace", t, &gaps_random_ws(t, rng)));
+        v.push(assemble("code-comments", t, &gaps_comments(t, rng, CODE_COMMENTS, 3)));
+        v.push(assemble("multibyte-comments", t, &gaps_comments(t, rng, MB_COMMENTS, 3)));
+    }
+    v
+}
+
+/// a layout is usable iff solang's lexer sees exactly the same tokens at the recorded offsets and the text parses
+fn layout_ok(l: &Layout, t: &Toks) -> bool {
+    let spans = match lex_spans(&l.text) {
+        Some(s) => s,
+        None => return false,
+    };
+    if spans.len() != t.texts.len() {
+        return false;
+    }
+    for (i, (s, e)) in spans.iter().enumerate() {
+        if *s != l.starts[i] || l.text.get(*s..*e) != Some(t.texts[i].as_str()) {
+            return false;
+        }
+    }
+    solang_parser::parse(&l.text, 0).is_ok()
+}
+
+/// same text, every comment body replaced by `z` (line structure and all byte offsets unchanged)
+fn neutralize_comments(text: &str) -> Option<String> {
+    let spans = lex_spans(text)?;
+    let mut out = String::with_capacity(text.len());
+    let mut pos = 0;
+    let mut gaps: Vec<(usize, usize)> = vec![];
+    for (s, e) in &spans {
+        gaps.push((pos, *s));
+        pos = *e;
+    }
+    gaps.push((pos, text.len()));
+    let mut tok_i = 0;
+    for (gs, ge) in gaps {
+        let g = &text[gs..ge];
+        let b = g.as_bytes();
+        let mut i = 0;
+        while i < b.len() {
+            if g[i..].starts_with("//") {
+                out.push_str("//");
+                i += 2;
+                while i < b.len() && b[i] != b'\n' && b[i] != b'\r' {
+                    out.push('z');
+                    i += 1;
+                }
+            } else if g[i..].starts_with("/*") {
+                let k = g[i + 2..].find("*/")?;
+                out.push_str("/*");
+                for c in g[i + 2..i + 2 + k].bytes() {
+                    out.push(if c == b'\n' || c == b'\r' { c as char } else { 'z' });
+                }
+                out.push_str("*/");
+                i = i + 2 + k + 2;
+            } else {
+                let ch = g[i..].chars().next().unwrap();
+                out.push(ch);
+                i += ch.len_utf8();
+            }
+        }
+        if tok_i < spans.len() {
+            out.push_str(&text[spans[tok_i].0..spans[tok_i].1]);
+            tok_i += 1;
+        }
+    }
+    if out.len() != text.len() {
+        return None;
+    }
+    Some(out)
+}
+
+/// same text, the content of every quoted string literal replaced by `z` (same byte length; hex strings,
+/// import paths and assembly dialect strings are left alone). None when there is nothing to replace.
+fn neutralize_strings(text: &str) -> Option<String> {
+    let spans = lex_spans(text)?;
+    let mut out = String::with_capacity(text.len());
+    let mut pos = 0;
+    let mut changed = false;
+    let mut prev = "";
+    for (s, e) in &spans {
+        out.push_str(&text[pos..*s]);
+        let tok = &text[*s..*e];
+        let body_start = if tok.starts_with('"') || tok.starts_with('\'') {
+            Some(1)
+        } else if tok.starts_with("unicode\"") || tok.starts_with("unicode'") {
+            Some(8)
+        } else {
+            None
+        };
+        match body_start {
+            Some(k) if tok.len() >= k + 1 && prev != "assembly" && prev != "import" && prev != "from" => {
+                out.push_str(&tok[..k]);
+                let body = &tok[k..tok.len() - 1];
+                if body.bytes().any(|c| c != b'z') {
+                    changed = true;
+                }
+                for _ in 0..body.len() {
+                    out.push('z');
+                }
+                out.push_str(&tok[tok.len() - 1..]);
+            }
+            _ => out.push_str(tok),
+        }
+        prev = tok;
+        pos = *e;
+    }
+    out.push_str(&text[pos..]);
+    if changed && out.len() == text.len() {
+        Some(out)
+    } else {
+        None
+    }
+}
+
+// ------------------------------------------------------------------------------------------------
+// C02
+// ------------------------------------------------------------------------------------------------
+
+struct LineFail {
+    key: &'static str,
+    expected: i32,
+    actual: String,
+}
+
+fn real_line(off: usize, s: &str) -> Result<i32, String> {
+    catch_unwind(AssertUnwindSafe(|| utils::get_line_number(off, s))).map_err(panic_msg)
+}
+
+/// one case of contract (a); admissibility (off < len, char boundary, s[off] != '\n') is the caller's business
+fn line_case(s: &str, off: usize) -> Option<LineFail> {
+    let exp = spec_line(off, s);
+    let got = match real_line(off, s) {
+        Err(m) => return Some(LineFail { key: "c02:get_line_number-panics", expected: exp, actual: format!("panic: {}", m) }),
+        Ok(g) => g,
+    };
+    if got == exp {
+        return None;
+    }
+    let key = if got == 0 && !s[off..].contains('\n') {
+        "c02:last-line-without-newline-gives-0"
+    } else if s.contains('\r') && real_line(off, &s.replace('\r', "a")) == Ok(exp) {
+        "c02:crlf"
+    } else if !s.is_ascii() && {
+        let ascii: String = s.chars().map(|c| if c.is_ascii() { c.to_string() } else { "a".repeat(c.len_utf8()) }).collect();
+        real_line(off, &ascii) == Ok(exp)
+    } {
+        "c02:multibyte"
+    } else if (got - exp).abs() == 1 {
+        "c02:get_line_number-off-by-one"
+    } else {
+        "c02:get_line_number-wrong"
+    };
+    Some(LineFail { key, expected: exp, actual: got.to_string() })
+}
+
+fn admissible(s: &str, off: usize) -> bool {
+    off < s.len() && s.is_char_boundary(off) && s.as_bytes()[off] != b'\n'
+}
+
+fn line_violation(part: &mut Part, s: &str, off: usize, f: LineFail) {
+    part.violate(
+        f.key.to_string(),
+        format!("get_line_number({}, {:?}) returns {}, the byte at that offset is on line {}", off, s, f.actual, f.expected),
+        vec!["c02-case".into(), "line".into(), format!("@src:{}", s), off.to_string()],
+        format!("{} (1 + number of line feeds before offset {})", f.expected, off),
+        f.actual,
+    );
+}
+
+const ALPHABET: [char; 4] = ['a', '\n', '\r', '\u{e9}'];
+const EXH_LEN: usize = 7;
+
+fn random_text(rng: &mut Rng) -> String {
+    let span = if rng.below(8) == 0 { 1500 } else { 120 };
+    let n = 8 + rng.below(span);
+    let mut s = String::new();
+    for _ in 0..n {
+        match rng.below(20) {
+            0 | 1 | 2 => s.push('\n'),
+            3 => s.push('\r'),
+            4 => s.push_str("\r\n"),
+            5 => s.push('\u{e9}'),
+            6 => s.push('\u{6f22}'),
+            7 => s.push('\u{1F600}'),
+            8 => s.push(' '),
+            9 => s.push('\t'),
+            k => s.push((b'a' + (k as u8 - 10)) as char),
+        }
+    }
+    s
+}
+
+/// text layouts of contract (b): need not preserve tokens, only has to parse
+fn c02_layouts(p: &Prog, rng: &mut Rng) -> Vec<(String, String)> {
+    let mut v: Vec<(String, String)> = vec![];
+    v.push(("original".into(), p.src.clone()));
+    v.push(("original-no-final-newline".into(), p.src.trim_end().to_string()));
+    if let Some(t) = tokenize(&p.src) {
+        if !t.texts.is_empty() {
+            let n = t.texts.len();
+            let mut g = t.orig_gaps.clone();
+            v.push(("original-crlf".into(), assemble("", &t, &crlf_gaps(&g)).text));
+            g[n] = String::new();
+            v.push(("original-crlf-no-final-newline".into(), assemble("", &t, &crlf_gaps(&g)).text));
+            let blank: Vec<String> = t.orig_gaps.iter().map(|x| x.replace('\n', "\n\n\n")).collect();
+            v.push(("blank-lines".into(), assemble("", &t, &blank).text));
+            let per_line = base_layout(&t).text;
+            v.push(("one-token-per-line".into(), per_line.clone()));
+            v.push(("one-token-per-line-no-eol".into(), per_line.trim_end().to_string()));
+            v.push(("crlf-token-per-line-no-eol".into(), assemble("", &t, &gaps_const(&t, "", "\r\n", "")).text));
+            v.push(("single-line-no-eol".into(), assemble("", &t, &gaps_const(&t, "", " ", "")).text));
+            v.push(("single-line".into(), assemble("", &t, &gaps_const(&t, "", " ", "\n")).text));
+            v.push(("multibyte-comment-header+token-per-line".into(), format!("{}{}", mb_header(), per_line)));
+            v.push((
+                "multibyte-string-header+token-per-line".into(),
+                format!("string constant MB0 = \"{}\";\n{}", "\u{6f22}\u{e9}\u{1F600}".repeat(24), per_line),
+            ));
+            v.push(("multibyte-comments".into(), assemble("", &t, &gaps_comments(&t, rng, MB_COMMENTS, 2)).text));
+            v.push(("random-whitespace".into(), assemble("", &t, &gaps_random_ws(&t, rng)).text));
+        }
+    }
+    v
+}
+
+/// outcome of contract (b) on one (text, detector)
+struct BFail {
+    key: String,
+    expected: String,
+    actual: String,
+    /// Some(offset) when the mismatch is get_line_number's own (contract (a) fails on this text at that offset)
+    line_off: Option<usize>,
+}
+
+/// contract (b) on one text and one detector. Ok((flagged, None)) = holds; Ok((_, Some(fail))) = violated.
+/// Err = not applicable (does not parse / detector panics: C04's business)
+fn analyze_case(d: &Det, text: &str) -> Result<(bool, Option<BFail>), String> {
+    let su = match solang_parser::parse(text, 0) {
+        Ok((su, _)) => su,
+        Err(_) => return Err("does not parse".into()),
+    };
+    let locs = locations(d, su).map_err(|m| format!("detector panics: {}", m))?;
+    let expected: BTreeSet<i32> = locs.iter().map(|l| spec_line(l.start(), text)).collect();
+    let got = match analyze(d, text, 0) {
+        Ok(g) => g,
+        Err(m) => {
+            return Ok((
+                true,
+                Some(BFail {
+                    key: format!("c02:analyze_for-panics-but-detector-does-not:{}", d.name),
+                    expected: format!("{:?}", expected),
+                    actual: format!("panic: {}", m),
+                    line_off: None,
+                }),
+            ))
+        }
+    };
+    let flagged = !expected.is_empty() || !got.is_empty();
+    if got == expected {
+        return Ok((flagged, None));
+    }
+    // whose fault? if the reported set is exactly what get_line_number makes of the detector's locations,
+    // the conversion of the location set is right and get_line_number itself is wrong on this text
+    let mut starts: Vec<usize> = locs.iter().map(|l| l.start()).collect();
+    starts.sort();
+    let via: Option<BTreeSet<i32>> = starts.iter().map(|o| real_line(*o, text).ok()).collect();
+    if via.as_ref() == Some(&got) {
+        for o in starts {
+            if admissible(text, o) {
+                if let Some(f) = line_case(text, o) {
+                    return Ok((flagged, Some(BFail { key: f.key.to_string(), expected: format!("{:?}", expected), actual: format!("{:?}", got), line_off: Some(o) })));
+                }
+            }
+        }
+    }
+    Ok((
+        flagged,
+        Some(BFail { key: format!("c02:analyze_for-lines-mismatch:{}", d.name), expected: format!("{:?}", expected), actual: format!("{:?}", got), line_off: None }),
+    ))
+}
+
+fn c02_program(p: &Prog, dets: &[Det], rng: &mut Rng) -> Part {
+    let mut part = Part::default();
+    if solang_parser::parse(&p.src, 0).is_err() {
+        part.parse_fail.push(p.tag.clone());
+        return part;
+    }
+    for (kind, text) in c02_layouts(p, rng) {
+        if solang_parser::parse(&text, 0).is_err() {
+            part.rejected += 1;
+            continue;
+        }
+        for d in dets {
+            match analyze_case(d, &text) {
+                Err(_) => part.skipped_panics += 1,
+                Ok((flagged, res)) => {
+                    part.evals += 1;
+                    // non-trivial: the detector reports at least one location on this text
+                    if flagged {
+                        part.nontrivial.push(format!("b|{}|{}|{}", p.tag, kind, d.name));
+                    }
+                    if let Some(f) = res {
+                        let (why, replay) = match f.line_off {
+                            Some(o) => (
+                                format!(" (get_line_number is wrong at offset {} of this text)", o),
+                                vec!["c02-case".into(), "line".into(), format!("@src:{}", text), o.to_string()],
+                            ),
+                            None => (String::new(), vec!["c02-case".into(), "analyze".into(), format!("@src:{}", text), d.name.to_string()]),
+                        };
+                        part.violate(
+                            f.key,
+                            format!(
+                                "analyze_for_* with pattern {} on layout '{}' of program {} reports lines {} but the detector's locations start on lines {}{}",
+                                d.name, kind, p.tag, f.actual, f.expected, why
+                            ),
+                            replay,
+                            f.expected,
+                            f.actual,
+                        );
+                    } else if flagged && part.samples.len() < 1 && kind == "multibyte-comments" {
+                        part.samples.push(J::obj(vec![
+                            ("part", J::s("b")),
+                            ("program", J::s(p.tag.clone())),
+                            ("layout", J::s(kind.clone())),
+                            ("detector", J::s(d.name)),
+                            ("lines", J::s(fmt_lines(&analyze(d, &text, 0)))),
+                            ("source", J::s(text.clone())),
+                        ]));
+                    }
+                }
+            }
+        }
+    }
+    part
+}
+
+pub fn run_c02(tier: &str, seed: u64) -> CheckResult {
+    silence();
+    let thorough = tier == "thorough";
+    let mut r = CheckResult::new("c02");
+    let mut tot = Totals { skipped_panics: 0, parse_fail: vec![], rejected: 0 };
+
+    // (a1) bounded-exhaustive
+    let mut strings = vec![String::new()];
+    let mut frontier = vec![String::new()];
+    for _ in 0..EXH_LEN {
+        let mut next = vec![];
+        for s in &frontier {
+            for c in ALPHABET {
+                let mut t = s.clone();
+                t.push(c);
+                next.push(t);
+            }
+        }
+        strings.extend(next.iter().cloned());
+        frontier = next;
+    }
+    let chunks: Vec<&[String]> = strings.chunks(128).collect();
+    let parts = par_map(&chunks, |_, ch| {
+        let mut part = Part::default();
+        for s in ch.iter() {
+            for off in 0..s.len() {
+                if !admissible(s, off) {
+                    continue;
+                }
+                part.evals += 1;
+                if s.contains('\n') {
+                    part.nontrivial.push(format!("a|{:?}@{}", s, off));
+                }
+                if let Some(f) = line_case(s, off) {
+                    line_violation(&mut part, s, off, f);
+                }
+            }
+        }
+        part
+    });
+    let exh_strings = strings.len();
+    merge(&mut r, parts, &mut tot);
+    let exh_cases = r.evaluations;
+    r.sample(J::obj(vec![
+        ("part", J::s("a-exhaustive")),
+        ("text", J::s("a\r\n\u{e9}\na")),
+        ("offset", J::Num(6)),
+        ("spec_line", J::Num(spec_line(6, "a\r\n\u{e9}\na") as i64)),
+        ("get_line_number", J::s(format!("{:?}", real_line(6, "a\r\n\u{e9}\na")))),
+    ]));
+
+    // (a2) seeded random longer texts
+    let n_random: usize = if thorough { 100_000 } else { 6_000 };
+    let per_chunk = 250;
+    let chunk_ids: Vec<usize> = (0..(n_random + per_chunk - 1) / per_chunk).collect();
+    let parts = par_map(&chunk_ids, |_, ci| {
+        let mut part = Part::default();
+        let mut rng = Rng::new(seed.wrapping_mul(1_000_003).wrapping_add(*ci as u64 + 17));
+        for k in 0..per_chunk {
+            let id = ci * per_chunk + k;
+            if id >= n_random {
+                break;
+            }
+            let s = random_text(&mut rng);
+            let adm: Vec<usize> = (0..s.len()).filter(|o| admissible(&s, *o)).collect();
+            if adm.is_empty() {
+                continue;
+            }
+            // first and last admissible offset, the first offset after the last line feed, and random ones
+            let mut offs = vec![adm[0], adm[adm.len() - 1]];
+            if let Some(nl) = s.rfind('\n') {
+                if admissible(&s, nl + 1) {
+                    offs.push(nl + 1);
+                }
+            }
+            for _ in 0..3 {
+                offs.push(*rng.pick(&adm));
+            }
+            offs.sort();
+            offs.dedup();
+            for off in offs {
+                part.evals += 1;
+                if s.contains('\n') {
+                    part.nontrivial.push(format!("r|{}@{}", id, off));
+                }
+                if let Some(f) = line_case(&s, off) {
+                    line_violation(&mut part, &s, off, f);
+                }
+            }
+        }
+        part
+    });
+    merge(&mut r, parts, &mut tot);
+    let rnd_cases = r.evaluations - exh_cases;
+
+    // (b) analyze_for_* == line set of the detector's locations, programs x layouts x 30 detectors
+    let dets = detectors();
+    let mut rng = Rng::new(seed);
+    let progs = corpus(if thorough { 0 } else { 30 }, false, &mut rng);
+    let parts = par_map(&progs, |i, p| {
+        let mut rng = Rng::new(seed.wrapping_mul(7919).wrapping_add(i as u64));
+        c02_program(p, &dets, &mut rng)
+    });
+    merge(&mut r, parts, &mut tot);
+    let b_cases = r.evaluations - exh_cases - rnd_cases;
+
+    r.exhaustive = true;
+    r.rule = "part (a): a case is one (text, offset) with offset < len, on a char boundary, text[offset] != LF; non-trivial iff the text contains a line feed. \
+part (b): a case is one (program, layout, detector) comparison of analyze_for_*'s line set with { 1 + #LF before loc.start : loc in detector(parse(text)) }, \
+the detector function being called directly on the parse tree; non-trivial iff the detector reports at least one location on that text"
+        .into();
+    r.bound = format!(
+        "EXHAUSTIVE for part (a) only: all {} texts of <= {} characters (hence all texts of <= {} UTF-8 code units) over the alphabet {{LF, CR, 'a', U+00E9}} x all admissible offsets = {} cases; \
+SAMPLED: {} seeded random texts of 8..1500 characters (LF, CR, CRLF, 2/3/4-byte characters) with up to 6 offsets each = {} cases; \
+SAMPLED part (b): {} generated programs x up to 15 layouts (original, no final newline, CRLF, CRLF without final newline, blank lines, one token per line with/without final newline, single line with/without final newline, multi-byte comment header, multi-byte string-literal header, multi-byte comments between tokens, random white space) x 30 detectors = {} cases",
+        exh_strings, EXH_LEN, EXH_LEN, exh_cases, n_random, rnd_cases, progs.len(), b_cases
+    );
+    r.extra.push(("exhaustive_part".into(), J::s("part (a), get_line_number on the bounded text space only; everything else is sampled")));
+    r.extra.push(("cases_exhaustive".into(), J::Num(exh_cases as i64)));
+    r.extra.push(("cases_random_texts".into(), J::Num(rnd_cases as i64)));
+    r.extra.push(("cases_analyze_for".into(), J::Num(b_cases as i64)));
+    r.extra.push(("skipped_panics".into(), J::Num(tot.skipped_panics as i64)));
+    r.extra.push(("layouts_rejected_by_parser".into(), J::Num(tot.rejected as i64)));
+    r.extra.push(("parse_failures".into(), J::arr_s(tot.parse_fail)));
+    r.assumptions.push("part (b) takes the byte location of a flagged construct from the detector function itself (which node a detector reports is the business of C05..C09)".into());
+    r.assumptions.push("(program, detector) pairs on which the detector function panics are skipped and counted in skipped_panics (C04)".into());
+    r.assumptions.push("solang_parser::parse locations are byte offsets into the text".into());
     r
+}
+
+fn c02_replay(rest: &[String]) -> i32 {
+    silence();
+    if rest.len() < 3 {
+        eprintln!("usage: c02-case line <text> <offset> | c02-case analyze <source> <detector>");
+        return 2;
+    }
+    let text = crate::arg_or_file(&rest[1]);
+    match rest[0].as_str() {
+        "line" => {
+            let off: usize = rest[2].parse().unwrap_or(usize::MAX);
+            if !admissible(&text, off) {
+                println!("offset {} is not admissible for this text (precondition of the contract)", off);
+                return 2;
+            }
+            match line_case(&text, off) {
+                None => {
+                    println!("holds: get_line_number({}, text) == {}", off, spec_line(off, &text));
+                    0
+                }
+                Some(f) => {
+                    println!("VIOLATED [{}]: get_line_number({}, {:?}) == {}, expected {}", f.key, off, text, f.actual, f.expected);
+                    1
+                }
+            }
+        }
+        "analyze" => {
+            let dets = detectors();
+            let di = match det_by_name(&dets, &rest[2]) {
+                Some(i) => i,
+                None => {
+                    eprintln!("unknown detector {}", rest[2]);
+                    return 2;
+                }
+            };
+            match analyze_case(&dets[di], &text) {
+                Err(m) => {
+                    println!("not applicable: {}", m);
+                    0
+                }
+                Ok((_, None)) => {
+                    println!("holds: analyze_for_* lines == lines of the detector's locations");
+                    0
+                }
+                Ok((_, Some(f))) => {
+                    println!("VIOLATED [{}]: analyze_for_* reports {}, the detector's locations start on lines {}", f.key, f.actual, f.expected);
+                    1
+                }
+            }
+        }
+        _ => 2,
+    }
+}
+
+// ------------------------------------------------------------------------------------------------
+// C17
+// ------------------------------------------------------------------------------------------------
+
+/// Compare the lines reported on layout `l` with the lines of the tokens flagged on the reference layout.
+/// Returns None if the contract holds, else (key, expected, actual).
+fn relayout_case(d: &Det, l: &Layout, flagged: &[usize], base_text: &str) -> Option<(String, String, String)> {
+    let expected: BTreeSet<i32> = flagged.iter().map(|t| l.lines[*t]).collect();
+    let got = match analyze(d, &l.text, 0) {
+        Ok(g) => g,
+        Err(m) => {
+            return Some((
+                format!("c17:layout-changes-findings:{}:{}", d.name, l.kind),
+                format!("{:?}", expected),
+                format!("panic (none on the one-token-per-line layout): {}", m),
+            ))
+        }
+    };
+    if got == expected {
+        return None;
+    }
+    // a wrong offset-to-line conversion (C02's contract (a)) on either text is a different defect than a
+    // detector or parser that reacts to layout: key it by its C02 class, not per detector and layout
+    let key = match line_fault(d, &l.text).or_else(|| line_fault(d, base_text)) {
+        Some(class) => format!("c17:{}", class.trim_start_matches("c02:")),
+        None => format!("c17:layout-changes-findings:{}:{}", d.name, l.kind),
+    };
+    Some((key, format!("{:?}", expected), format!("{:?}", got)))
+}
+
+/// the C02 class of a get_line_number fault at one of the locations the detector reports on `text`, if any
+fn line_fault(d: &Det, text: &str) -> Option<&'static str> {
+    let su = solang_parser::parse(text, 0).ok()?.0;
+    let mut starts: Vec<usize> = locations(d, su).ok()?.iter().map(|l| l.start()).collect();
+    starts.sort();
+    for o in starts {
+        if admissible(text, o) {
+            if let Some(f) = line_case(text, o) {
+                return Some(f.key);
+            }
+        }
+    }
+    None
+}
+
+/// flagged token indices on the reference layout; Err(lines) when a reported line holds no token start
+fn flagged_tokens(lines: &BTreeSet<i32>, ntok: usize) -> Result<Vec<usize>, Vec<i32>> {
+    let bad: Vec<i32> = lines.iter().cloned().filter(|l| *l < 1 || *l as usize > ntok).collect();
+    if !bad.is_empty() {
+        return Err(bad);
+    }
+    Ok(lines.iter().map(|l| (*l - 1) as usize).collect())
+}
+
+fn c17_program(p: &Prog, dets: &[Det], rng: &mut Rng, rounds: usize) -> Part {
+    let mut part = Part::default();
+    if solang_parser::parse(&p.src, 0).is_err() {
+        part.parse_fail.push(p.tag.clone());
+        return part;
+    }
+    let toks = match tokenize(&p.src) {
+        Some(t) if !t.texts.is_empty() && t.texts.iter().all(|x| !x.contains('\n')) => t,
+        _ => {
+            part.rejected += 1;
+            return part;
+        }
+    };
+    let n = toks.texts.len();
+    let base = base_layout(&toks);
+    if !layout_ok(&base, &toks) {
+        part.rejected += 1;
+        return part;
+    }
+    // reference findings: token indices
+    let mut flagged: Vec<Option<Vec<usize>>> = vec![];
+    for d in dets {
+        match analyze(d, &base.text, 0) {
+            Err(_) => {
+                part.skipped_panics += 1;
+                flagged.push(None);
+            }
+            Ok(lines) => match flagged_tokens(&lines, n) {
+                Ok(f) => {
+                    if !f.is_empty() {
+                        part.nontrivial.push(format!("{}|{}", p.tag, d.name));
+                        if part.samples.is_empty() && d.name != "solidity_math" {
+                            part.samples.push(J::obj(vec![
+                                ("program", J::s(p.tag.clone())),
+                                ("detector", J::s(d.name)),
+                                ("tokens", J::Num(n as i64)),
+                                ("flagged_token_indices", J::s(format!("{:?}", f))),
+                                ("flagged_tokens", J::s(format!("{:?}", f.iter().map(|i| toks.texts[*i].as_str()).collect::<Vec<_>>()))),
+                            ]));
+                        }
+                    }
+                    flagged.push(Some(f));
+                }
+                Err(bad) => {
+                    part.evals += 1;
+                    let key = match line_fault(d, &base.text) {
+                        Some(class) => format!("c17:{}", class.trim_start_matches("c02:")),
+                        None => format!("c17:line-without-token-start:{}", d.name),
+                    };
+                    part.violate(
+                        key,
+                        format!("{} reports lines {:?} on the one-token-per-line layout of {} which has {} lines/tokens", d.name, bad, p.tag, n),
+                        vec!["c17-case".into(), "relayout".into(), format!("@src:{}", base.text), d.name.to_string()],
+                        format!("every reported line in 1..={}", n),
+                        format!("{:?}", lines),
+                    );
+                    flagged.push(None);
+                }
+            },
+        }
+    }
+    // (1) token-preserving re-layouts
+    let layouts = relayouts(&toks, rng, rounds);
+    for l in &layouts {
+        if !layout_ok(l, &toks) {
+            part.rejected += 1;
+            continue;
+        }
+        for (di, d) in dets.iter().enumerate() {
+            let fl = match &flagged[di] {
+                Some(f) => f,
+                None => continue,
+            };
+            part.evals += 1;
+            if let Some((key, expected, actual)) = relayout_case(d, l, fl, &base.text) {
+                part.violate(
+                    key,
+                    format!(
+                        "{} on layout '{}' of {}: tokens {:?} start flagged constructs (one-token-per-line layout); they are on lines {} of this layout, reported {}",
+                        d.name,
+                        l.kind,
+                        p.tag,
+                        fl.iter().map(|i| format!("#{} {}", i, toks.texts[*i])).collect::<Vec<_>>(),
+                        expected,
+                        actual
+                    ),
+                    vec!["c17-case".into(), "relayout".into(), format!("@src:{}", l.text), d.name.to_string()],
+                    expected,
+                    actual,
+                );
+            }
+        }
+        // (2) comment text is never flagged: same layout, comment bodies neutralised
+        if l.kind == "code-comments" || l.kind == "multibyte-comments" {
+            if let Some(neutral) = neutralize_comments(&l.text) {
+                if neutral != l.text && solang_parser::parse(&neutral, 0).is_ok() {
+                    for d in dets {
+                        let a = analyze(d, &l.text, 0);
+                        let b = analyze(d, &neutral, 0);
+                        if a.is_err() && b.is_err() {
+                            continue;
+                        }
+                        part.evals += 1;
+                        if a != b {
+                            let key = match line_fault(d, &l.text).or_else(|| line_fault(d, &neutral)) {
+                                Some(class) => format!("c17:{}", class.trim_start_matches("c02:")),
+                                None => format!("c17:comment-text-flagged:{}", d.name),
+                            };
+                            part.violate(
+                                key,
+                                format!("{} on {}: findings change when only the text inside comments is replaced by neutral text", d.name, p.tag),
+                                vec!["c17-case".into(), "comments".into(), format!("@src:{}", l.text), d.name.to_string()],
+                                fmt_lines(&b),
+                                fmt_lines(&a),
+                            );
+                        }
+                    }
+                }
+            }
+        }
+    }
+    // (3) string-literal text is never flagged
+    if let Some(neutral) = neutralize_strings(&p.src) {
+        if solang_parser::parse(&neutral, 0).is_ok() {
+            for d in dets {
+                let a = analyze(d, &p.src, 0);
+                let b = analyze(d, &neutral, 0);
+                if a.is_err() && b.is_err() {
+                    continue;
+                }
+                part.evals += 1;
+                part.nontrivial.push(format!("{}|strings|{}", p.tag, d.name));
+                if a != b {
+                    let key = match line_fault(d, &p.src).or_else(|| line_fault(d, &neutral)) {
+                        Some(class) => format!("c17:{}", class.trim_start_matches("c02:")),
+                        None => format!("c17:string-text-flagged:{}", d.name),
+                    };
+                    part.violate(
+                        key,
+                        format!("{} on {}: findings change when only the characters inside string literals are replaced (same lengths)", d.name, p.tag),
+                        vec!["c17-case".into(), "strings".into(), format!("@src:{}", p.src), d.name.to_string()],
+                        fmt_lines(&b),
+                        fmt_lines(&a),
+                    );
+                }
+            }
+        } else {
+            part.rejected += 1;
+        }
+    }
+    part
+}
+
+pub fn run_c17(tier: &str, seed: u64) -> CheckResult {
+    silence();
+    let thorough = tier == "thorough";
+    let mut r = CheckResult::new("c17");
+    let mut tot = Totals { skipped_panics: 0, parse_fail: vec![], rejected: 0 };
+    let dets = detectors();
+    let mut rng = Rng::new(seed);
+    let progs = corpus(if thorough { 0 } else { 30 }, true, &mut rng);
+    let rounds = if thorough { 3 } else { 1 };
+    let parts = par_map(&progs, |i, p| {
+        let mut rng = Rng::new(seed.wrapping_mul(104_729).wrapping_add(i as u64));
+        c17_program(p, &dets, &mut rng, rounds)
+    });
+    merge(&mut r, parts, &mut tot);
+    r.rule = "tokens = the token sequence of solang's lexer; reference = the one-token-per-line layout (reported line L <=> token index L-1 starts a flagged construct); \
+a case is one (program, layout, detector) comparison: lines reported on the layout == lines of the reference-flagged tokens in that layout; plus (program, detector) comparisons of the findings with \
+comment bodies / string-literal contents replaced by neutral text of identical byte and line structure; non-trivial iff the detector flags at least one token of the program (or the program has a string literal to neutralise)"
+        .into();
+    r.bound = format!(
+        "{} generated programs (detector payloads in every position template, string-literal payloads, kitchen-sink files) x 30 detectors x {} layouts \
+(original, original-crlf, single-line, single-line-no-eol, crlf-token-per-line, blank-lines, multibyte-header+token-per-line, two-tokens-per-line, and {} seeded instance(s) each of random-whitespace, code-comments, multibyte-comments)",
+        progs.len(),
+        8 + 3 * rounds,
+        rounds
+    );
+    r.extra.push(("skipped_panics".into(), J::Num(tot.skipped_panics as i64)));
+    r.extra.push(("layouts_or_programs_rejected_by_selfcheck".into(), J::Num(tot.rejected as i64)));
+    r.extra.push(("parse_failures".into(), J::arr_s(tot.parse_fail)));
+    r.assumptions.push("token boundaries are those of solang_parser::lexer::Lexer (the lexer the analysis itself uses); each layout is re-lexed and must give the same tokens at the recorded offsets, and must parse, else it is dropped and counted".into());
+    r.assumptions.push("no comment is inserted next to a pragma value: solang lexes everything between `pragma <ident>` and `;` as one token".into());
+    r.assumptions.push("(program, detector) pairs on which the detector panics on the reference layout are skipped and counted in skipped_panics (C04)".into());
+    r.assumptions.push("a finding on the unterminated last line reported as line 0 is C02's defect and is keyed separately (c17:last-line-without-newline-gives-0)".into());
+    r
+}
+
+fn c17_replay(rest: &[String]) -> i32 {
+    silence();
+    if rest.len() < 3 {
+        eprintln!("usage: c17-case relayout|comments|strings <source> <detector>");
+        return 2;
+    }
+    let text = crate::arg_or_file(&rest[1]);
+    let dets = detectors();
+    let d = match det_by_name(&dets, &rest[2]) {
+        Some(i) => dets[i],
+        None => {
+            eprintln!("unknown detector {}", rest[2]);
+            return 2;
+        }
+    };
+    if solang_parser::parse(&text, 0).is_err() {
+        println!("not applicable: the text does not parse");
+        return 0;
+    }
+    match rest[0].as_str() {
+        "relayout" => {
+            let toks = match tokenize(&text) {
+                Some(t) if !t.texts.is_empty() => t,
+                _ => {
+                    println!("not applicable: cannot tokenize");
+                    return 0;
+                }
+            };
+            let base = base_layout(&toks);
+            let this = assemble("given", &toks, &toks.orig_gaps);
+            if !layout_ok(&base, &toks) || this.text != text {
+                println!("not applicable: the one-token-per-line layout does not preserve the tokens");
+                return 0;
+            }
+            let lines = match analyze(&d, &base.text, 0) {
+                Ok(l) => l,
+                Err(m) => {
+                    println!("not applicable: detector panics on the reference layout: {}", m);
+                    return 0;
+                }
+            };
+            let fl = match flagged_tokens(&lines, toks.texts.len()) {
+                Ok(f) => f,
+                Err(bad) => {
+                    println!("VIOLATED: lines {:?} reported on the one-token-per-line layout hold no token", bad);
+                    return 1;
+                }
+            };
+            println!(
+                "flagged tokens on the one-token-per-line layout: {:?}",
+                fl.iter().map(|i| format!("#{} {}", i, toks.texts[*i])).collect::<Vec<_>>()
+            );
+            match relayout_case(&d, &this, &fl, &base.text) {
+                None => {
+                    println!("holds: the given layout reports exactly the lines of those tokens");
+                    0
+                }
+                Some((key, expected, actual)) => {
+                    println!("VIOLATED [{}]: those tokens are on lines {} of the given layout, reported {}", key, expected, actual);
+                    1
+                }
+            }
+        }
+        "comments" | "strings" => {
+            let neutral = if rest[0] == "comments" { neutralize_comments(&text) } else { neutralize_strings(&text) };
+            let neutral = match neutral {
+                Some(n) if solang_parser::parse(&n, 0).is_ok() => n,
+                _ => {
+                    println!("not applicable: nothing to neutralise");
+                    return 0;
+                }
+            };
+            let a = analyze(&d, &text, 0);
+            let b = analyze(&d, &neutral, 0);
+            if a == b || (a.is_err() && b.is_err()) {
+                println!("holds: {} with and without the text inside {}", fmt_lines(&a), rest[0]);
+                0
+            } else {
+                println!("VIOLATED: {} as given, {} with the text inside {} replaced by neutral text", fmt_lines(&a), fmt_lines(&b), rest[0]);
+                1
+            }
+        }
+        _ => 2,
+    }
+}
+
+// ------------------------------------------------------------------------------------------------
+// C15
+// ------------------------------------------------------------------------------------------------
+
+const FILE_NUMBERS: [usize; 4] = [0, 1, 7, usize::MAX / 2];
+const THREADS: usize = 8;
+
+fn same(a: &Lines, b: &Lines) -> bool {
+    match (a, b) {
+        (Ok(x), Ok(y)) => x == y,
+        (Err(_), Err(_)) => true,
+        _ => false,
+    }
+}
+
+/// run every pattern except `di` in the order given by `perm_seed`, then `di`; returns all results
+fn history_run(dets: &[Det], src: &str, di: usize, perm_seed: u64) -> Vec<(usize, Lines)> {
+    let mut others: Vec<usize> = (0..dets.len()).filter(|j| *j != di).collect();
+    Rng::new(perm_seed).shuffle(&mut others);
+    let mut out = vec![];
+    for j in others {
+        out.push((j, analyze(&dets[j], src, 0)));
+    }
+    out.push((di, analyze(&dets[di], src, 0)));
+    out
+}
+
+/// THREADS threads, released together, each running all patterns on `src` in its own seeded order
+/// (interleaved with calls on `other`, a different file content)
+fn threads_run(dets: &[Det], src: &str, other: &str, seed: u64) -> Vec<Vec<(usize, Lines)>> {
+    let barrier = Barrier::new(THREADS);
+    std::thread::scope(|s| {
+        let mut hs = vec![];
+        for t in 0..THREADS {
+            let b = &barrier;
+            let h = std::thread::Builder::new()
+                .stack_size(32 << 20)
+                .spawn_scoped(s, move || {
+                    let mut order: Vec<usize> = (0..dets.len()).collect();
+                    Rng::new(seed.wrapping_add(t as u64 * 0x9E37)).shuffle(&mut order);
+                    b.wait();
+                    let mut out = vec![];
+                    for &di in &order {
+                        out.push((di, analyze(&dets[di], src, 0)));
+                        if !other.is_empty() {
+                            let _ = analyze(&dets[(di + t) % dets.len()], other, t);
+                        }
+                    }
+                    out
+                })
+                .expect("cannot spawn thread");
+            hs.push(h);
+        }
+        hs.into_iter().map(|h| h.join().unwrap_or_default()).collect()
+    })
+}
+
+fn encode_lines(l: &Lines) -> String {
+    match l {
+        Ok(s) => format!("OK {}", s.iter().map(|x| x.to_string()).collect::<Vec<_>>().join(",")),
+        Err(m) => format!("PANIC {}", m.replace('\n', " ")),
+    }
+}
+
+fn decode_lines(s: &str) -> Option<Lines> {
+    let s = s.trim();
+    if let Some(rest) = s.strip_prefix("OK") {
+        let mut set = BTreeSet::new();
+        for p in rest.trim().split(',') {
+            if p.is_empty() {
+                continue;
+            }
+            set.insert(p.parse::<i32>().ok()?);
+        }
+        Some(Ok(set))
+    } else {
+        s.strip_prefix("PANIC").map(|m| Err(m.trim().to_string()))
+    }
+}
+
+/// the same (content, pattern) analysed as the only thing a fresh process ever does
+fn fresh_process(src: &str, det: &str) -> Option<Lines> {
+    if src.len() > 60_000 || src.contains('\0') {
+        return None;
+    }
+    let exe = std::env::current_exe().ok()?;
+    let out = std::process::Command::new(exe).arg("c15-alone").arg(format!("@src:{}", src)).arg(det).output().ok()?;
+    let txt = String::from_utf8_lossy(&out.stdout).to_string();
+    decode_lines(txt.lines().last()?)
+}
+
+pub fn run_c15(tier: &str, seed: u64) -> CheckResult {
+    silence();
+    let thorough = tier == "thorough";
+    let mut r = CheckResult::new("c15");
+    let dets = detectors();
+    let nd = dets.len();
+    let mut rng = Rng::new(seed);
+    let progs = corpus(if thorough { 24 } else { 6 }, false, &mut rng);
+    let rounds: u64 = if thorough { 2 } else { 1 };
+    let fresh_every = if thorough { 4 } else { 8 };
+    let mut skipped_panics = 0u64;
+    let mut parse_fail = vec![];
+    let mut counts = [0u64; 5]; // repeat, file-number, history, threads, fresh
+    let mut fresh_jobs: Vec<(usize, usize)> = vec![];
+    let mut baselines: Vec<Option<Vec<Lines>>> = vec![];
+    let mut prev_src = String::new();
+
+    for (pi, p) in progs.iter().enumerate() {
+        if solang_parser::parse(&p.src, 0).is_err() {
+            parse_fail.push(p.tag.clone());
+            baselines.push(None);
+            continue;
+        }
+        // (i) reference: the first evaluation of (content, pattern) in this process
+        let base: Vec<Lines> = dets.iter().map(|d| analyze(d, &p.src, 0)).collect();
+        for (di, d) in dets.iter().enumerate() {
+            match &base[di] {
+                Err(_) => skipped_panics += 1,
+                Ok(l) => {
+                    if !l.is_empty() {
+                        r.nontrivial.insert(format!("{}|{}", p.tag, d.name));
+                        if r.samples.len() < 3 && d.name != "solidity_math" {
+                            r.sample(J::obj(vec![("program", J::s(p.tag.clone())), ("detector", J::s(d.name)), ("lines", J::s(fmt_lines(&base[di])))]));
+                        }
+                    }
+                }
+            }
+        }
+        let report = |r: &mut CheckResult, kind: &str, di: usize, what: String, replay_tail: Vec<String>, got: &Lines| {
+            let mut replay = vec!["c15-case".to_string(), kind.to_string(), format!("@src:{}", p.src), dets[di].name.to_string()];
+            replay.extend(replay_tail);
+            let key = match kind {
+                "repeat" => "c15:not-repeatable",
+                "file-number" => "c15:depends-on-file-number",
+                "history" => "c15:depends-on-history",
+                "threads" => "c15:threads-differ",
+                _ => "c15:fresh-process-differs",
+            };
+            r.violate(&format!("{}:{}", key, dets[di].name), &format!("{} on {}: {}", dets[di].name, p.tag, what), replay, fmt_lines(&base[di]), fmt_lines(got));
+        };
+        // (iii) repeated: three evaluations in a row give the same lines
+        for di in 0..nd {
+            if base[di].is_err() {
+                continue;
+            }
+            for k in 0..2 {
+                let g = analyze(&dets[di], &p.src, 0);
+                r.evaluations += 1;
+                counts[0] += 1;
+                if !same(&g, &base[di]) {
+                    report(&mut r, "repeat", di, format!("repetition {} differs from the first evaluation", k + 2), vec![], &g);
+                }
+            }
+        }
+        // (iv) file_number
+        for di in 0..nd {
+            if base[di].is_err() {
+                continue;
+            }
+            for fno in &FILE_NUMBERS[1..] {
+                let g = analyze(&dets[di], &p.src, *fno);
+                r.evaluations += 1;
+                counts[1] += 1;
+                if !same(&g, &base[di]) {
+                    // really the file number? the same call once more must differ again and file_number 0 must still agree
+                    let again = analyze(&dets[di], &p.src, *fno);
+                    let zero = analyze(&dets[di], &p.src, 0);
+                    if same(&again, &g) && same(&zero, &base[di]) {
+                        report(&mut r, "file-number", di, format!("file_number {} gives other lines than file_number 0", fno), vec![], &g);
+                    } else {
+                        report(&mut r, "repeat", di, format!("evaluations with file_number {} and 0 are not repeatable", fno), vec![], &g);
+                    }
+                }
+            }
+        }
+        // (ii) history: after the 29 other patterns in a seeded order
+        for round in 0..rounds {
+            for di in 0..nd {
+                let perm_seed = seed.wrapping_mul(1_000_003).wrapping_add((pi * nd + di) as u64 * 7 + round);
+                for (j, g) in history_run(&dets, &p.src, di, perm_seed) {
+                    if base[j].is_err() {
+                        continue;
+                    }
+                    r.evaluations += 1;
+                    counts[2] += 1;
+                    if !same(&g, &base[j]) {
+                        report(
+                            &mut r,
+                            "history",
+                            j,
+                            format!("differs after other patterns were run first (order seed {}, target {})", perm_seed, dets[di].name),
+                            vec![perm_seed.to_string(), dets[di].name.to_string()],
+                            &g,
+                        );
+                    }
+                }
+            }
+        }
+        // (v) concurrent callers
+        let tseed = seed.wrapping_mul(31).wrapping_add(pi as u64);
+        for (t, res) in threads_run(&dets, &p.src, &prev_src, tseed).into_iter().enumerate() {
+            if res.len() != nd {
+                r.violate("c15:thread-died", &format!("thread {} did not finish on {}", t, p.tag), vec!["c15-case".into(), "threads".into(), format!("@src:{}", p.src), dets[0].name.into(), tseed.to_string()], "30 results".into(), format!("{} results", res.len()));
+            }
+            for (di, g) in res {
+                if base[di].is_err() {
+                    continue;
+                }
+                r.evaluations += 1;
+                counts[3] += 1;
+                if !same(&g, &base[di]) {
+                    report(&mut r, "threads", di, format!("thread {} of {} concurrent callers got other lines", t, THREADS), vec![tseed.to_string()], &g);
+                }
+            }
+        }
+        if pi % fresh_every == 0 {
+            for di in 0..nd {
+                fresh_jobs.push((pi, di));
+            }
+        }
+        prev_src = p.src.clone();
+        baselines.push(Some(base));
+    }
+    // (i') truly alone: one fresh process per (content, pattern), compared with the in-process reference
+    let fresh = par_map(&fresh_jobs, |_, (pi, di)| fresh_process(&progs[*pi].src, dets[*di].name));
+    let mut fresh_unavailable = 0u64;
+    for ((pi, di), f) in fresh_jobs.iter().zip(fresh.into_iter()) {
+        let base = match &baselines[*pi] {
+            Some(b) => b,
+            None => continue,
+        };
+        match f {
+            None => fresh_unavailable += 1,
+            Some(g) => {
+                r.evaluations += 1;
+                counts[4] += 1;
+                if !same(&g, &base[*di]) {
+                    let p = &progs[*pi];
+                    r.violate(
+                        &format!("c15:fresh-process-differs:{}", dets[*di].name),
+                        &format!("{} on {}: a fresh process that analyses nothing else reports other lines than this process did", dets[*di].name, p.tag),
+                        vec!["c15-case".into(), "fresh".into(), format!("@src:{}", p.src), dets[*di].name.to_string()],
+                        fmt_lines(&g),
+                        fmt_lines(&base[*di]),
+                    );
+                }
+            }
+        }
+    }
+    r.rule = format!(
+        "reference = first evaluation of (file content, pattern) in this process through analyze_for_*; a case is one comparison of another evaluation of the same (content, pattern) with the reference: \
+repeated twice more; file_number in {:?}; after the 29 other patterns in a seeded permuted order (every pattern is the target once per program and round, and every intermediate result is compared too); \
+from {} threads released together, each running all 30 patterns in its own permutation, interleaved with calls on a different file; and (sampled programs) as the only call of a fresh process. \
+non-trivial iff the reference reports at least one line. THREAD INTERLEAVINGS ARE SAMPLED BY THE OS SCHEDULER, NOT EXPLORED SYSTEMATICALLY.",
+        FILE_NUMBERS, THREADS
+    );
+    r.bound = format!(
+        "{} generated programs x 30 patterns; {} history round(s); comparisons: repeat {}, file_number {}, history {}, threads {}, fresh process {}",
+        progs.len(),
+        rounds,
+        counts[0],
+        counts[1],
+        counts[2],
+        counts[3],
+        counts[4]
+    );
+    r.extra.push(("skipped_panics".into(), J::Num(skipped_panics as i64)));
+    r.extra.push(("fresh_process_unavailable".into(), J::Num(fresh_unavailable as i64)));
+    r.extra.push(("parse_failures".into(), J::arr_s(parse_fail)));
+    r.assumptions.push("thread interleavings are sampled (8 OS threads, barrier start), not explored systematically; a data race that needs a rare schedule can be missed".into());
+    r.assumptions.push("independence from sibling files, directories and directory position is exercised only through the file_number argument and through interleaved calls on other contents here; analyze_dir itself is C03's contract".into());
+    r.assumptions.push("(program, pattern) pairs whose reference evaluation panics are skipped and counted in skipped_panics (C04); they still run as part of the history of the other patterns".into());
+    r
+}
+
+fn c15_replay(rest: &[String]) -> i32 {
+    silence();
+    if rest.len() < 3 {
+        eprintln!("usage: c15-case repeat|file-number|history|threads|fresh <source> <detector> [seed] [target]");
+        return 2;
+    }
+    let src = crate::arg_or_file(&rest[1]);
+    let dets = detectors();
+    let di = match det_by_name(&dets, &rest[2]) {
+        Some(i) => i,
+        None => {
+            eprintln!("unknown detector {}", rest[2]);
+            return 2;
+        }
+    };
+    if solang_parser::parse(&src, 0).is_err() {
+        println!("not applicable: the text does not parse");
+        return 0;
+    }
+    let sd: u64 = rest.get(3).and_then(|s| s.parse().ok()).unwrap_or(1);
+    // in a replay the process is fresh: the first evaluation IS the (content, pattern) analysed alone
+    let base = analyze(&dets[di], &src, 0);
+    let mut others: Vec<(String, Lines)> = vec![];
+    match rest[0].as_str() {
+        "repeat" => {
+            for k in 0..2 {
+                others.push((format!("repetition {}", k + 2), analyze(&dets[di], &src, 0)));
+            }
+        }
+        "file-number" => {
+            for f in &FILE_NUMBERS[1..] {
+                others.push((format!("file_number {}", f), analyze(&dets[di], &src, *f)));
+            }
+        }
+        "history" => {
+            let target = rest.get(4).and_then(|n| det_by_name(&dets, n)).unwrap_or(di);
+            for (j, g) in history_run(&dets, &src, target, sd) {
+                if j == di {
+                    others.push((format!("after other patterns (order seed {})", sd), g));
+                }
+            }
+            others.push(("once more at the end".into(), analyze(&dets[di], &src, 0)));
+        }
+        "threads" => {
+            for (t, res) in threads_run(&dets, &src, &src, sd).into_iter().enumerate() {
+                for (j, g) in res {
+                    if j == di {
+                        others.push((format!("thread {}", t), g));
+                    }
+                }
+            }
+        }
+        "fresh" => {
+            for d in &dets {
+                let _ = analyze(d, &src, 0);
+            }
+            let again = analyze(&dets[di], &src, 0);
+            match fresh_process(&src, dets[di].name) {
+                Some(f) => {
+                    others.push(("another fresh process".into(), f));
+                    others.push(("this process after all 30 patterns".into(), again));
+                }
+                None => {
+                    println!("cannot start a fresh process");
+                    return 2;
+                }
+            }
+        }
+        _ => return 2,
+    }
+    let mut rc = 0;
+    println!("alone: {}", fmt_lines(&base));
+    for (what, g) in others {
+        if !same(&g, &base) {
+            println!("VIOLATED: {} gives {}", what, fmt_lines(&g));
+            rc = 1;
+        }
+    }
+    if rc == 0 {
+        println!("holds: every other evaluation gives the same lines");
+    }
+    rc
+}
+
+// ------------------------------------------------------------------------------------------------
+
+/// Returns Some(exit code) when `cmd` belongs to this module.
+pub fn dispatch(cmd: &str, rest: &[String], tier: &str, seed: u64) -> Option<i32> {
+    match cmd {
+        "c02" => {
+            println!("{}", run_c02(tier, seed).to_json().render());
+            Some(0)
+        }
+        "c17" => {
+            println!("{}", run_c17(tier, seed).to_json().render());
+            Some(0)
+        }
+        "c15" => {
+            println!("{}", run_c15(tier, seed).to_json().render());
+            Some(0)
+        }
+        "c02-case" => Some(c02_replay(rest)),
+        "c17-case" => Some(c17_replay(rest)),
+        "c15-case" => Some(c15_replay(rest)),
+        // helper of c15: analyse one (content, pattern) as the only thing this process does
+        "c15-alone" => {
+            silence();
+            if rest.len() < 2 {
+                return Some(2);
+            }
+            let src = crate::arg_or_file(&rest[0]);
+            let dets = detectors();
+            match det_by_name(&dets, &rest[1]) {
+                Some(di) => {
+                    println!("{}", encode_lines(&analyze(&dets[di], &src, 0)));
+                    Some(0)
+                }
+                None => Some(2),
+            }
+        }
+        _ => None,
+    }
 }
